@@ -27,6 +27,8 @@ pub enum K {
     MRefsTo,
     MCheckRefs,
     MDebug,
+    /// drop every handle to the model that the harness holds (files and elements stay)
+    MDrop,
     // file
     FName,
     FVersion,
@@ -101,7 +103,7 @@ pub enum K {
 
 pub const ALL_KINDS: &[K] = &[
     K::MNew, K::MCreateFile, K::MLoadBuffer, K::MRemoveFile, K::MSerializeFiles, K::MFiles, K::MRoot, K::MGetByPath,
-    K::MDuplicate, K::MDfs, K::MSort, K::MIdentifiables, K::MRefsTo, K::MCheckRefs, K::MDebug, K::FName, K::FVersion,
+    K::MDuplicate, K::MDfs, K::MSort, K::MIdentifiables, K::MRefsTo, K::MCheckRefs, K::MDebug, K::MDrop, K::FName, K::FVersion,
     K::FSetVersion, K::FCheckCompat, K::FSetFilename, K::FModel, K::FDfs, K::FSerialize, K::FStandalone, K::FDebug,
     K::EParent, K::ENamedParent, K::EName, K::EItemName, K::EIsIdent, K::EIsRef, K::EPath, K::EModel, K::EContentType,
     K::ECount, K::ECData, K::EContent, K::EPosition, K::ESubElements, K::EGetSub, K::EGetSubAt, K::EDfs, K::EAttrs,
@@ -598,6 +600,17 @@ fn exec_inner(w: &World, label: u32, op: &Op) -> Option<Ret> {
             let mut r = Ret::shape("Debug").s(s.len().to_string());
             r.best_effort = true;
             r
+        }
+        K::MDrop => {
+            let mut t = w.tables();
+            if let Some(m) = t.models.remove(&op.a) {
+                t.model_ids.remove(&m);
+                t.model_order.retain(|h| *h != op.a);
+                // iterators may hold the model too
+                t.iters.clear();
+                t.iter_order.clear();
+            }
+            Ret::shape("Unit")
         }
         // ---------- file ----------
         K::FName => Ret::shape("Str").s(w.file(op.a)?.filename().to_string_lossy().to_string()),
